@@ -12,6 +12,11 @@ CHECKS = {
             "Generated-input search: thousands of generated signal sets (hierarchical back-traces, related chains, overrides that look like generated names, keywords, request orders) and generated module trees (written out as Python source, elaborated twice, converted) are checked for name injectivity, legality against an independently typed IEEE 1800-2017 keyword list and text reproducibility; all 248 keywords are enumerated exhaustively. Absence of a counter-example in the generated space, not a proof.",
             "Trusted: Hypothesis, Migen (site-packages), the harness tracer shim, the typed keyword list, the declaration regexes that parse the emitted text.",
             "DESIGN.md section 4 / C02"),
+    "C13": ("exploration",
+            "model-based property testing (Hypothesis): generated API call histories against the real handler objects, invariant oracle after every successful step, decoders evaluated on boundary and generated addresses",
+            "Generated-input search over histories of add_region/alloc/add_slave/add_master/finalize calls (fixed, unaligned, non-power-of-two, top-of-space, IO/cached/linker regions; 32/64-bit spaces), CSR/IRQ location requests with boundary numbers and reuse, and platform request/lookup/extension sequences. After every successful request the invariants of the property (pairwise disjoint power-of-two windows, allocated regions inside space/IO region and aligned, exact decoder accept sets, unique names/locations in range, resources granted once) are evaluated on the real objects; rejected requests end the design and the successful prefix is replayed. Exploration, not proof.",
+            "Trusted: Hypothesis, Migen's expression Evaluator (used to evaluate decoder predicates), the harness' window arithmetic. Preconditions: unique (name, number) platform descriptions; alloc scans longer than 2^17 steps are not executed.",
+            "DESIGN.md section 4 / C13"),
 }
 
 NOT_YET = {}
